@@ -18,6 +18,14 @@
    dropped", and prints the case table; every printed case is run with the
    real client against the real server (chroot) in real directories: get, put
    and copy, trees compared byte for byte, errors compared with the table.
+5. specs/SftpIO/Sparse.tla models the sparse-ranges protocol (the server's
+   paging of data ranges with at_end, the client's request loop, a server
+   without the extension, a local source): every hole layout x page size is
+   checked (RangesExact, DestEqual, Ordered, FullPages, Terminates; "a full
+   page is the end" and "do not resume at the last range" must be rejected)
+   and replayed as a real sparse get / put / copy of a real sparse file with
+   the server's page limit scaled to the case, plus unscaled cases with
+   127..257 real extents against the real limit of 128.
 2. Behaviours sampled by TLC (-simulate) are replayed into the REAL client
    (SFTPClientFile.read/write, SFTPClient.get/put/copy) against a scripted
    SFTP server that holds every READ/WRITE and answers in the behaviour's
@@ -203,6 +211,92 @@ def tree_replay(ctx, res_emit, rnd):
                 f'tree sample too thin: {stats}')
 
 
+SPARSE_INVS = ['RangesExact', 'DestEqual', 'Ordered', 'FullPages',
+               'Terminates']
+
+
+def sparse_tlc(name, invs, **kw):
+    """One TLC run of specs/SftpIO/Sparse.tla"""
+    d = dict(MaxA=5, Pages='{0, 1, 2, 3, 99}', Alt=0,
+             AtEndOnFullPage='FALSE', ResumeAtRequest='FALSE', Emit='FALSE')
+    d.update(kw)
+    cfg = f'_c12_sparse_{name}.cfg'
+    lines = ['CONSTANTS'] + [f'  {k} = {v}' for k, v in d.items()]
+    lines += ['SPECIFICATION Spec']
+    lines += [f'INVARIANT {i}' for i in invs]
+    with open(os.path.join(SPEC, cfg), 'w') as f:
+        f.write('\n'.join(lines) + '\n')
+    try:
+        return tlc.run(SPEC, 'Sparse', cfg, f'c12_sparse_{name}', workers=1,
+                       timeout=1500, java_heap='3g')
+    finally:
+        tlc.cleanup(f'c12_sparse_{name}')
+        os.remove(os.path.join(SPEC, cfg))
+
+
+def sparse_replay(ctx, tables, rnd):
+    """Part 5: every case of the sparse-ranges table (Sparse.tla) as a real
+    sparse transfer of a real sparse file through the real client and
+    asyncssh's own server (page limit scaled to the case, plus unscaled
+    cases around 128 extents)."""
+    from harness.drivers import sftp_proto, sftp_tree, sftp_sparse
+    rows = []
+    for res in tables:
+        rows += [r for r in sftp_proto.printed_multiline(res.output)
+                 if r and r[0] == 'SPARSE']
+    ctx.require(len(rows) > 200, f'sparse table has only {len(rows)} cases')
+    w = sftp_tree.TreeWorld()
+    stats = {'paged': 0, 'unscaled': 0, 'skipped': 0}
+    seen = 0
+    try:
+        for i, row in enumerate(rows):
+            A, data, K, reqs = sftp_sparse.parse_row(row)
+            op = 'put' if K == 99 else 'get' if K == 0 else \
+                rnd.choice(['get', 'copy'])
+            block = rnd.choice([1, 2, 3])
+            mr = rnd.choice([1, 3])
+            version = rnd.choice([3, 4, 6])
+            r = sftp_sparse.run_case(w, i, A, data, K, reqs, op, block=block,
+                                     max_requests=mr, version=version)
+            if r.get('skipped'):
+                stats['skipped'] += 1
+                continue
+            stats['paged'] += len(reqs) > 1
+            stats['unscaled'] += K == 128
+            ctx.count(('sparse', A, tuple(sorted(data)) if A < 20 else
+                       len(data), K, op), nontrivial=len(reqs) > 1)
+            if i % 97 == 13:
+                ctx.sample({'part': 'sparse', 'A': A, 'data': sorted(data)
+                            if A < 20 else f'{len(data)} extents', 'K': K,
+                            'op': op, 'exchange': r.get('log') if A < 20
+                            else len(r.get('log') or [])})
+            rp = {'kind': 'sparse', 'A': A, 'data': sorted(data), 'K': K,
+                  'reqs': reqs, 'op': op, 'block': block, 'max_requests': mr,
+                  'version': version}
+            for clause in sorted({c for c, _ in r['l1']}):
+                seen += 1
+                if seen > 6:
+                    continue
+                text = '; '.join(t for c, t in r['l1'] if c == clause)
+                dd = sorted(data) if A < 20 else f'{len(data)} extents'
+                ctx.violation({'module': 'Sparse', 'clause': clause, 'A': A,
+                               'data': dd, 'K': K, 'op': op},
+                              f'{clause}: {text} [size={A} data={dd} '
+                              f'page={K} op={op} block={block} v{version}]',
+                              replay=rp)
+            if r['diverged'] and not r['l1']:
+                ctx.divergence(f'Sparse: size={A} data='
+                               f'{sorted(data) if A < 20 else len(data)} '
+                               f'page={K} op={op}: {r["diverged"][:400]}')
+    finally:
+        w.close()
+    ctx.traces_validated(len(rows) - stats['skipped'])
+    ctx.notes.append(f'sparse-ranges cases replayed: {len(rows)} {stats}')
+    if stats['skipped'] == 0:
+        ctx.require(stats['paged'] > 50 and stats['unscaled'] >= 1,
+                    f'sparse sample too thin: {stats}')
+
+
 TRACE_CONSTS = dict(MaxN=1, Blocks='{1}', MaxReqs='{1}', Ops='{}',
                     SparseSet='{}', MaxAns=1, AllowErr='TRUE',
                     ByOffset='TRUE', Continue='TRUE', ExtendDst='TRUE')
@@ -376,6 +470,24 @@ def main(ctx):
     if ctx.replay_path:
         with open(ctx.replay_path) as f:
             rp = json.load(f)['replay']
+        if rp.get('kind') == 'sparse':
+            from harness.drivers import sftp_tree, sftp_sparse
+            w = sftp_tree.TreeWorld()
+            try:
+                r = sftp_sparse.run_case(w, 0, rp['A'], set(rp['data']),
+                                         rp['K'], rp['reqs'], rp['op'],
+                                         block=rp['block'],
+                                         max_requests=rp['max_requests'],
+                                         version=rp['version'])
+            finally:
+                w.close()
+            print('sparse case:', r['l1'], str(r['diverged'])[:300])
+            ctx.count(('replay', ctx.replay_path))
+            for clause, text in r['l1']:
+                ctx.violation({'module': 'Sparse', 'clause': clause,
+                               'A': rp['A'], 'K': rp['K'], 'op': rp['op']},
+                              text, replay=rp)
+            return
         if rp.get('kind') == 'tree':
             from harness.drivers import sftp_tree
             w = sftp_tree.TreeWorld()
@@ -509,7 +621,7 @@ def main(ctx):
         f_tree = {
             'all': ex.submit(tree_tlc, 'all', TREE_INVS,
                              workers=2 if quick else 6,
-                             seed=ctx.seed + 3, NFlags=80 if quick else 0),
+                             seed=ctx.seed + 3, NFlags=50 if quick else 0),
             'lstat': ex.submit(tree_tlc, 'lstat', ['SizeFromTarget'],
                                SizeFromLstat='TRUE'),
             'skip': ex.submit(tree_tlc, 'skip', ['ErrorsReported'],
@@ -518,11 +630,26 @@ def main(ctx):
                               seed=ctx.seed + 5, Emit='TRUE',
                               NTrees=800 if quick else 15000),
         }
+        # the sparse-ranges protocol (specs/SftpIO/Sparse.tla)
+        alts = [129] if quick else [127, 128, 129, 257]
+        f_sparse = {
+            'table': ex.submit(sparse_tlc, 'table', SPARSE_INVS + ['Table'],
+                               MaxA=5 if quick else 7, Emit='TRUE'),
+            'atend': ex.submit(sparse_tlc, 'atend', ['RangesExact'],
+                               AtEndOnFullPage='TRUE'),
+            'resume': ex.submit(sparse_tlc, 'resume', ['Ordered'],
+                                ResumeAtRequest='TRUE'),
+        }
+        for n_ext in alts:
+            f_sparse[f'alt{n_ext}'] = ex.submit(
+                sparse_tlc, f'alt{n_ext}', SPARSE_INVS + ['Table'],
+                Alt=n_ext, Pages='{128}', Emit='TRUE')
         f_mc = [ex.submit(one, it) for it in runs]
         f_sim = [ex.submit(one_sim, it) for it in enumerate(sims)]
         results = [f.result() for f in f_mc]
         sim_out = [f.result() for f in f_sim]
         tree_res = {k: f.result() for k, f in f_tree.items()}
+        sparse_res = {k: f.result() for k, f in f_sparse.items()}
     for (name, exp, kw), res in zip(runs, results):
         ctx.require_tlc_ok(f'SftpIO {name} {kw}', res, expect_violation=exp)
 
@@ -593,6 +720,20 @@ def main(ctx):
                        expect_violation='ErrorsReported')
     ctx.require_tlc_ok('SftpTree case table', tree_res['emit'])
     tree_replay(ctx, tree_res['emit'], rnd)
+
+    # ---- 5. the sparse-ranges protocol (paging with at_end) -----------------
+    ctx.require_tlc_ok('Sparse every layout x page size', sparse_res['table'])
+    ctx.require_tlc_ok('Sparse where a full page counts as the end (must '
+                       'violate RangesExact)', sparse_res['atend'],
+                       expect_violation='RangesExact')
+    ctx.require_tlc_ok('Sparse where the next request does not resume at the '
+                       'last range (must violate Ordered)',
+                       sparse_res['resume'], expect_violation='Ordered')
+    for n_ext in alts:
+        ctx.require_tlc_ok(f'Sparse unscaled: {n_ext} extents, page 128',
+                           sparse_res[f'alt{n_ext}'])
+    sparse_replay(ctx, [sparse_res['table']] +
+                  [sparse_res[f'alt{n}'] for n in alts], rnd)
 
     ctx.assumptions += [
         'recorded transfers: linearization points are taken in the client by '
